@@ -31,6 +31,7 @@ def follower_ok(kind, nxt):
         rest = nxt[1:] if c == "." else nxt[2:]
         if rest == "": return True
         d = rest[0]
+        if d == '"' and '"' not in rest[1:]: return True      # an unterminated string literal is not an expression: `@name."` is the name, then text
         if d in IDENT or d in '&*"([': return False
         return True
     return True
@@ -58,7 +59,8 @@ CONDS = [("b", lambda a: a["b"]), ("!b", lambda a: not a["b"]), ("n == 0", lambd
          ("n != 1 && b", lambda a: a["n"] != 1 and a["b"]), ("n<2 || !b", lambda a: a["n"] < 2 or not a["b"]),
          ('s == "x"', lambda a: a["s"] == "x"), ("n >= 1", lambda a: a["n"] >= 1), ("n <= 1", lambda a: a["n"] <= 1),
          ("n > 1", lambda a: a["n"] > 1), ("! b", lambda a: not a["b"]), ("xs.is_empty()", lambda a: not a["xs"]),
-         ("n < 2", lambda a: a["n"] < 2), ("(n == 1)", lambda a: a["n"] == 1)]
+         ("n < 2", lambda a: a["n"] < 2), ("(n == 1)", lambda a: a["n"] == 1),
+         ('"a  b".len() ==\n    4', lambda a: True), ('n\t!=\t1  &&\n "t\tz  ".len() == 5', lambda a: a["n"] != 1), ('s !=\n"a \t b"', lambda a: True)]
 
 TEXT_ALPHA = ["a", "Z", " ", "\n", "\r\n", "\t", "<p>", "</p>", ".", ",", ")", "(", "]", "[", "!", ":", "::", '"', "'", "\\", "é", "€", "-", "=", ";", "#", "0", "_", "else", "if", "in", "/", "*", "&", "|", "\0", "\x0c", "\x1b", "\x7f", "​", "̀", "𝄞"]
 LAYOUTS = [" ", "  ", "\t", "\n", "\r\n", "@* c *@", "@*\n multi * @ line\n*@", "@**@", "@* ** *@", "@* x **@"]
@@ -112,6 +114,9 @@ class Gen:
                 chain = [(R.randrange(len(CONDS)), self.items(depth - 1, nlocals)) for _ in range(R.randint(1, 3))]
                 els = self.items(depth - 1, nlocals) if R.random() < 0.6 else None
                 out.append(("if", chain, els))
+                if els is None and R.random() < 0.35:
+                    # literal text that reads like the start of an else branch: nothing of it may be swallowed
+                    out.append(("text", R.choice([" else we answer", "else", " else if in doubt, ask.", " elsewhere", "\nelse\n", " else if n"])))
             elif k == "iflet":
                 v = self.var()
                 out.append(("iflet", v, self.items(depth - 1, nlocals + 1), self.items(depth - 1, nlocals) if R.random() < 0.5 else None))
@@ -120,12 +125,14 @@ class Gen:
                 nl = nlocals + (1 if kind in (0, 1, 4) else 2)
                 out.append(("for", kind, v, w, self.items(depth - 1, nl)))
             elif k == "match":
-                kind = R.randrange(3); v = self.var()
+                kind = R.randrange(5); v = self.var()
                 if kind == 0: arms = [self.items(depth - 1, nlocals + 1), self.items(depth - 1, nlocals)]
                 elif kind == 1: arms = [self.items(depth - 1, nlocals) for _ in range(3)]
-                else: arms = [self.items(depth - 1, nlocals) for _ in range(4)]
+                elif kind == 2: arms = [self.items(depth - 1, nlocals) for _ in range(4)]
+                elif kind == 3: arms = [self.items(depth - 1, nlocals) for _ in range(3)]      # overlapping tuple patterns: the order of the arms decides
+                else: arms = [self.items(depth - 1, nlocals) for _ in range(2)]                # `true` before the catch-all
                 # arms that are not neighbours with the very same body (the catch-all repeating the first arm)
-                if kind > 0 and R.random() < 0.35: arms[-1] = list(arms[0])
+                if kind in (1, 2, 3) and R.random() < 0.35: arms[-1] = list(arms[0])
                 if kind == 2 and R.random() < 0.2: arms[2] = list(arms[0])
                 out.append(("match", kind, v, arms))
             elif k == "call":
@@ -200,8 +207,12 @@ class Gen:
                     pats = ["Some(%s)" % v, "None"]; scr = "o"; nns = [names + [v], names]
                 elif kind == 1:
                     pats = ["0", "1", "_"]; scr = "n"; nns = [names] * 3
-                else:
+                elif kind == 2:
                     pats = ['"x"', '"a<b"', '""', "_"]; scr = "s"; nns = [names] * 4
+                elif kind == 3:
+                    pats = ["(_, true)", "(0, _)", "_"]; scr = "(n, b)"; nns = [names] * 3
+                else:
+                    pats = ["true", "_"]; scr = "b"; nns = [names] * 2
                 s = "@match " + sp() + scr + sp(True) + "{" + "".join(sp() + p + sp() + "=>" + sp() + "{" + self.pr(a, nn, "}") + "}" for p, a, nn in zip(pats, arms, nns)) + sp() + "}"
             elif k == "call":
                 _, name, idx, blocks = it
@@ -258,9 +269,14 @@ class Gen:
                     if env["o"] is not None: r += self.render(arms[0], L(**{v: env["o"]}), names + [v], callee_bodies, slots)
                     else: r += self.render(arms[1], env, names, callee_bodies, slots)
                 elif kind == 1: r += self.render(arms[min(env["n"], 2)], env, names, callee_bodies, slots)
-                else:
+                elif kind == 2:
                     i = {"x": 0, "a<b": 1, "": 2}.get(env["s"], 3)
                     r += self.render(arms[i], env, names, callee_bodies, slots)
+                elif kind == 3:
+                    i = 0 if env["b"] else 1 if env["n"] == 0 else 2
+                    r += self.render(arms[i], env, names, callee_bodies, slots)
+                else:
+                    r += self.render(arms[0 if env["b"] else 1], env, names, callee_bodies, slots)
             elif k == "call":
                 _, name, idx, blocks = it
                 val = self.expr_val(idx, env, names)
